@@ -98,7 +98,17 @@ Theorem C04_rho_probs_fastpath_explicit : forall user basis (arr : list (list cx
 Proof. exact rho_probs_fastpath_explicit. Qed.
 Print Assumptions C04_rho_probs_fastpath_explicit.
 
-(* ---- 6. the default dictionary: Z is the identity; X, Y, Z are unitary; rows are the bras of the
+(* ---- 6a. which dictionary a rotation uses: the unitaries= argument, else the state's dictionary, else
+        create_dict() (= the empty user table); with neither, X, Y, Z denote their defaults whatever
+        table one compares with.  (* definitional: restates the model *) ---- *)
+Theorem C04_dictionary_resolution :
+  (forall arg state : option (list umatR),
+     resolve_dict arg state = match arg, state with Some d, _ => d | None, Some d => d | None, None => [] end) /\
+  (forall a, (forall k, a <> LU k) -> forall user, lookup ROps (resolve_dict None None) a = lookup ROps user a).
+Proof. exact (conj resolve_dict_spec resolve_none_is_default). Qed.
+Print Assumptions C04_dictionary_resolution.
+
+(* ---- 6. the default dictionary: Z is the identity (* this conjunct is definitional: lookup _ LZ := U_Z *); X, Y, Z are unitary; rows are the bras of the
         +1 / -1 eigenvectors, in that order:  U_b P_b = diag(1,-1) U_b ---- *)
 Theorem C04_default_dict :
   (forall user, lookup ROps user LZ = m2id) /\
